@@ -28,12 +28,20 @@ func registerModule(mod *moduledata) {
 }
 
 func registerModuleLockFree(tail **moduledata, mod *moduledata) {
+    // Link the module behind the current tail first and only then swing the tail:
+    // when this function returns the module must be reachable from the head of the
+    // list, because the caller runs its code right away and the runtime resolves
+    // those PCs (GC stack scan, traceback) by walking the list from the head.
+    // Swinging the tail first leaves a window in which a later registration hangs
+    // its module behind a tail that is not linked in yet.
     for {
         oldTail := loadModule(tail)
-        if casModule(tail, oldTail, mod) {
-            storeModule(&oldTail.next, mod)
+        if casModule(&oldTail.next, nil, mod) {
+            casModule(tail, oldTail, mod)
             break
         }
+        // the tail lags behind a registration in progress: help it forward
+        casModule(tail, oldTail, loadModule(&oldTail.next))
     }
 }
 
